@@ -120,6 +120,21 @@ def check_shape(shape, family, only=None):
                 bad(f"{order}:stop-not-returned", f"stop at call {i + 1} returned {r!r}")
                 break
 
+    # the stop signal is the VALUE "stop" (VisitStop = Literal["stop"]), not one particular string object
+    if n >= 2:
+        for order in ORDERS:
+            seen2 = []
+
+            def early(node, depth, data, seen2=seen2):
+                seen2.append(node)
+                return "".join(["st", "op"])  # equal to STOP, built at run time
+
+            try:
+                r2 = getattr(root, "visit_" + order)(early)
+                if len(seen2) != 1 or r2 != STOP:
+                    bad(f"{order}:equal-stop-value-ignored", f"visitor returned an equal 'stop' string: {len(seen2)} callbacks")
+            except Exception as e:  # noqa
+                bad(f"{order}:stop-raises", repr(e))
     # link-structure queries
     nodes = S.preorder(root)
     for nd in nodes:
@@ -187,6 +202,73 @@ def check_shape(shape, family, only=None):
         root.visit_preorder(lambda nn, d, data: first.append((d, data)) or "stop")
         if first != [(0, None)]:
             bad("default-depth-or-data", repr(first))
+    # queries after re-linking: ask, move a subtree to another tree through the public setters, ask again
+    if n >= 2 and n <= 7:
+        for k in range(1, n):
+            r1, cl = _build(shape, family)
+            r2 = type(r1)()
+            r2.id = "other-root"
+            ns = S.preorder(r1)
+            nd = ns[k]
+            ids_before = {x.id for x in S.preorder(nd)}
+            try:
+                for x in S.preorder(nd):
+                    x.get_root()
+                    if x.parent is not None:
+                        x.get_root_side()
+                if family == "expr":
+                    for the_id in sorted(ids_before):
+                        r1.find_id(the_id)
+                par_ = nd.parent
+                side = "left" if par_.left is nd else "right"
+                if side == "left":
+                    par_.set_left(None)
+                else:
+                    par_.set_right(None)
+                r2.set_right(nd)
+                for x in S.preorder(nd):
+                    if x.get_root() is not r2:
+                        bad("get_root-after-relinking", f"node {x.id} moved under another root still reports the old root")
+                        break
+                    if x.get_root_side() != "right":
+                        bad("get_root_side-after-relinking", f"node {x.id}")
+                        break
+                if family == "expr":
+                    ino = [a for a, _ in _ref(r1, "inorder")]
+                    for the_id in sorted(ids_before):
+                        want = next((x for x in ino if x.id == the_id), None)
+                        if r1.find_id(the_id) is not want:
+                            bad("find_id-after-relinking", f"id {the_id}: the node was moved out of the tree")
+                            break
+            except Exception as e:  # noqa
+                bad("query-after-relinking-raises", repr(e)[:120])
+            # ... and after REPLACING a subtree in place (the replaced node keeps its stale parent pointer, as the
+            # default of set_left / set_right leaves it)
+            if family == "expr":
+                try:
+                    r3, _cl = _build(shape, family)
+                    ns3 = S.preorder(r3)
+                    nd3 = ns3[k]
+                    old_ids = sorted({x.id for x in S.preorder(nd3)})
+                    for the_id in old_ids:
+                        r3.find_id(the_id)
+                    fresh_leaf = type(r3)()
+                    fresh_leaf.id = "replacement"
+                    p3 = nd3.parent
+                    if p3.left is nd3:
+                        p3.set_left(fresh_leaf)
+                    else:
+                        p3.set_right(fresh_leaf)
+                    ino3 = [a for a, _ in _ref(r3, "inorder")]
+                    for the_id in old_ids + ["replacement"]:
+                        want = next((x for x in ino3 if x.id == the_id), None)
+                        if r3.find_id(the_id) is not want:
+                            bad("find_id-after-replacement", f"id {the_id}: find_id does not follow the current links")
+                            break
+                    if [x for x in r3.to_list("inorder")] != ino3:
+                        bad("to_list-after-replacement", "")
+                except Exception as e:  # noqa
+                    bad("query-after-replacement-raises", repr(e)[:120])
     seen = set()
     res = []
     for c, d in out:
